@@ -752,13 +752,19 @@ class FakeFileWriter:
         self.closed = True
 
 
-def rotation(k: int = 3, clock: str = "same"):
+def rotation(k: int = 3, clock: str = "same", by_field: bool = False):
+    """by_field: the template also names a field of the record ({record.host}); consecutive records may share the timestamp and differ
+    in that field (pre-existing files are then left out to keep the obligation small)"""
     import flow.record.stream as S
     from flow.record import RecordDescriptor
 
-    D = RecordDescriptor("t/arch", [("varint", "n")])
-    tmpl = "/arch/{ts:%Y%m%dT%H}.records.gz"
-    paths = [tmpl.format(ts=b) for b in BUCKETS]
+    D = RecordDescriptor("t/arch", [("varint", "n"), ("string", "host")])
+    tmpl = "/arch/{record.host}-{ts:%Y%m%dT%H}.records.gz" if by_field else "/arch/{ts:%Y%m%dT%H}.records.gz"
+
+    class _H:
+        host = "h0"
+
+    paths = [tmpl.format(ts=b, record=_H) for b in BUCKETS]
 
     def check(c0: int, c1: int, c2: int, c3: int, pre0: bool, pre1: bool, pre2: bool) -> bool:
         """
@@ -768,6 +774,10 @@ def rotation(k: int = 3, clock: str = "same"):
         for c in cs:
             if not (0 <= c <= 2):
                 return True
+        if by_field:
+            # the pre-existing bits select the host of each record instead
+            hosts = ["h1" if b else "h0" for b in (pre0, pre1, pre2)] + ["h0"]
+            pre0 = pre1 = pre2 = False
         fs = FS()
         for p, pre in zip(paths, (pre0, pre1, pre2)):
             if pre:
@@ -806,7 +816,9 @@ def rotation(k: int = 3, clock: str = "same"):
                 for j in range(3):
                     if c == j:
                         target, gen = paths[j], BUCKETS[j]
-                r = D(i, _generated=gen)
+                r = D(i, hosts[i] if by_field else "h0", _generated=gen)
+                if by_field:
+                    target = tmpl.format(ts=gen, record=r)
                 recs.append((target, r))
                 w.write(r)
                 i += 1
@@ -858,6 +870,7 @@ def obligations(tier, seed):
         obs.append(ob(f"O2-empty/{a}", "xh", "history_empty", {"adapter": a}, timeout=to, group="O2-empty", bounds="all sequences of 3 calls over flush/close/exit"))
     for clock in ("same", "ticking"):
         obs.append(ob(f"O3-rotation/{clock}", "xh", "rotation", {"k": 3 if tier == "quick" else 4, "clock": clock}, timeout=to * 4, group="O3-rotation", bounds="bucket of each record in {0,1,2}, pre-existing bit per target path"))
+    obs.append(ob("O3-rotation/by-field", "xh", "rotation", {"k": 3, "clock": "tick", "by_field": True}, timeout=to * 4, group="O3-rotation", bounds="template names a record field: bucket of each record in {0,1,2} x field value of each record in {h0, h1}"))
     obs.append(ob("S2-real-histories", "side", "real_histories", {}, timeout=300, group="S2-real"))
     obs.append(ob("S3-real-split", "side", "real_split", {}, timeout=300, group="S3-real-split"))
     return obs
@@ -1069,6 +1082,33 @@ def _rotation_real(cs, pres, same_second=True):
     return None
 
 
+def _rotation_field_real(cs, hosts):
+    """real files: template '{record.host}-{ts...}': every record is in the file its template names"""
+    import flow.record.stream as S
+    from flow.record import RecordDescriptor, RecordReader
+
+    D = RecordDescriptor("t/arch", [("varint", "n"), ("string", "host")])
+    with tempdir() as d:
+        tmpl = os.path.join(d, "{record.host}-{ts:%Y%m%dT%H}.records.gz")
+        w = S.PathTemplateWriter(path_template=tmpl)
+        want = {}
+        for i, (c, h) in enumerate(zip(cs, hosts)):
+            r = D(i, h, _generated=BUCKETS[c])
+            want[i] = os.path.basename(tmpl.format(record=r, ts=BUCKETS[c]))[: -len(".records.gz")]
+            w.write(r)
+        w.close()
+        found = {}
+        for f in sorted(os.listdir(d)):
+            for r in RecordReader(os.path.join(d, f)):
+                found.setdefault(int(r.n), []).append(f)
+        for i in want:
+            if len(found.get(i, [])) != 1:
+                return f"archiving with a template that names a record field, buckets {cs}, hosts {hosts}: record {i} is in {found.get(i, [])}"
+            if not found[i][0].startswith(want[i]):
+                return f"archiving with a template that names a record field, buckets {cs}, hosts {hosts}: record {i} (host {hosts[i]}) is in {found[i][0]}, its template names {want[i]}.records.gz"
+    return None
+
+
 def replay(res):
     gid = res["id"]
     a = res["args"]
@@ -1112,6 +1152,13 @@ def replay(res):
                 key = K3 if _is_k3(adapter, ops) else f"C17/{adapter}/" + "-".join(OPN[o] for o in ops)
                 return {"reproduced": True, "key": key, "what": p[:600], "input": {"adapter": adapter, "ops": ops}}
         return {"reproduced": False, "what": "no history reproduces on real files"}
+    if "O3-rotation/by-field" in gid:
+        for cs in itertools.product(range(3), repeat=3):
+            for hs in itertools.product(("h0", "h1"), repeat=3):
+                p = _rotation_field_real(list(cs), list(hs))
+                if p:
+                    return {"reproduced": True, "key": "C17/rotation/by-field", "what": p[:600], "input": {"buckets": list(cs), "hosts": list(hs)}}
+        return {"reproduced": False, "what": "templates naming a record field archive correctly on the real file system"}
     if "O3-rotation" in gid:
         cv = cex_args(res, ["c0", "c1", "c2", "c3", "pre0", "pre1", "pre2"])
         k = a.get("k", 3)
